@@ -6,6 +6,8 @@ Model: Rs1090/Model/Decode/*.lean (`Message.tryFrom`), tied to the Rust decoder 
 `dec` correspondence check over the whole shape space (DF × TC × subtype × version × lengths).
 -/
 import Rs1090.Model.Decode.Message
+import Rs1090.Proofs.Decode.Message
+import Rs1090.Proofs.Decode.Checksum
 namespace Rs1090.Props.C01
 open Rs1090 Rs1090.Model Rs1090.Model.Message
 
@@ -55,6 +57,45 @@ theorem short_input_err (b0 : Nat) (rest : List Nat)
   rw [if_pos h]
 
 theorem empty_input_err : tryFrom [] = .err .incomplete := rfl
+
+/-- the checksum gate and the `DF` parse on the buffered bytes never panic -/
+theorem decodeBuf_ne_panic (b0 : Nat) (buf : List Nat) (h : ∀ b ∈ buf, b < 256) :
+    (decodeBuf b0 buf).isPanic = false := by
+  have hc := modesChecksum_noPanic buf (frameBits b0) h
+  unfold decodeBuf
+  cases hm : modesChecksum buf (frameBits b0) with
+  | err e => rfl
+  | panic x => rw [hm] at hc; simp [Outcome.isPanic] at hc
+  | ok crc =>
+    simp only []
+    split
+    · rfl
+    · have hd := (noPanicAt_iff (df crc) (Rd.init buf)).mp (df_noPanicAt crc buf)
+      unfold R.run
+      cases hr : df crc (Rd.init buf) with
+      | ok v => rfl
+      | err e => rfl
+      | panic x => rw [hr] at hd; simp [Outcome.isPanic] at hd
+
+/-- **Totality**: for every byte string of every length, `Message::try_from` returns a message or
+    an error — never a panic value (no arithmetic overflow under `overflow-checks`, no index or
+    slice out of bounds, no `unwrap` of `None`, no `unreachable!`) — composed from one
+    panic-freedom lemma per reader (`Proofs/Decode/*.lean`). Termination is by construction: every
+    model function is structurally recursive. -/
+theorem decode_ne_panic (bs : List Nat) (h : ∀ b ∈ bs, b < 256) : (tryFrom bs).isPanic = false := by
+  unfold tryFrom
+  cases bs with
+  | nil => rfl
+  | cons b0 rest =>
+    simp only []
+    split
+    · rfl
+    · have hb := decodeBuf_ne_panic b0 ((b0 :: rest).take (frameBits b0 / 8))
+        (fun b hb => h b (List.mem_of_mem_take hb))
+      cases hd : decodeBuf b0 ((b0 :: rest).take (frameBits b0 / 8)) with
+      | err e => rfl
+      | panic x => rw [hd] at hb; simp [Outcome.isPanic] at hb
+      | ok v => simp only []; split <;> rfl
 
 /-- determinism: the model is a function (stated for completeness; for the Rust code the harness
     decodes every input twice and compares both the value and its JSON) -/
